@@ -10,7 +10,7 @@ def scenarios(rng, tier):
     s = Scn()
     n = 60 if tier == 'quick' else 3000
     for k in range(n):
-        s.start('tbl_%d' % k); s.op('mk 0'); s.op('adv', rng.randrange(100000))
+        s.start('tbl_%d' % k); s.op('mk 0'); s.op('mk 1'); s.op('adv', rng.randrange(100000))
         nkeys = rng.choice([3, 8, 17, 24])
         ks = [(hx(mac(rng.randrange(1, 7))), rng.randrange(4)) for _ in range(nkeys)]
         bias_add = rng.choice([0.3, 0.5, 0.8])
@@ -22,7 +22,12 @@ def scenarios(rng, tier):
             elif r < bias_add * 0.8 + 0.3: s.op('st_complete 0', m, g, rng.randrange(2))
             elif r < bias_add * 0.8 + 0.32: s.op('st_clear 0')
             elif r < bias_add * 0.8 + 0.42: s.op('tick 0')
-            else: s.op('adv', rng.choice([0, 1, 999, 1000, 5000, 30000, 59000, 60000, 61000, 200000]))
+            elif r < bias_add * 0.8 + 0.47 and k % 5 == 0:
+                c2 = 1; m2, g2 = rng.choice(ks)       # a second interface's table in the same process
+                which = rng.choice(['add', 'add', 'find', 'remove'])
+                if which == 'add': s.op('st_add 1', m2, g2, rng.randrange(4))
+                else: s.op('st_%s 1' % which, m2, g2)
+            else: s.op('adv', rng.choice([0, 1, 999, 1000, 5000, 30000, 59000, 60000, 61000, 200000] + ([32767000, 32768000, 32769000, 65536000 + 30000, 65595000, 2**31 * 1000] if k % 4 == 0 else [])))
     return [(s.text(), {})]
 def project(blk, name, meta):
     if blk.op.startswith(('st_', 'tick', 'mk')): return project_keys(blk, ['ret', 'cnt', 'allc', 'empty', 'tbl'])
